@@ -783,7 +783,7 @@ func c18FirstDiff(a, b interface{}) string {
 	}
 	for k := range ma {
 		if !reflect.DeepEqual(ma[k], mb[k]) {
-			return fmt.Sprintf("%s: was %.120v, is %.120v", k, ma[k], mb[k])
+			return fmt.Sprintf("%s: was %s, is %s", k, c18Brief(ma[k], 3), c18Brief(mb[k], 3))
 		}
 	}
 	return "differs"
@@ -794,6 +794,7 @@ func runC18(cases string, res *Result) {
 	c18Aliases(res)
 	c18WrappedAssignments(res)
 	c18NestedInterfaceMaps(res)
+	c18OtherDialects(res)
 	var smoke []c18Seq
 	private := map[string]bool{"sort": true, "reverse": true, "merge": true, "keys": true, "split": true}
 	filters := (&twig.CoreExtension{}).GetFilters()
@@ -1267,4 +1268,82 @@ func c18NestedInterfaceMaps(res *Result) {
 			"{{ cycle("+v+", 1) }}", "{% for k, x in "+v+" %}{{ k }}{{ x|json_encode }}{% endfor %}", "{% set c = "+v+" %}{{ c|json_encode }}{{ c|keys|join }}")
 	}
 	c18Family(res, "nested-interface-maps", mk, nil, tpls)
+}
+
+// c18OtherDialects: spellings of other Twig versions that this engine may refuse (a refused template is skipped) or
+// may come to accept: loop conditions, the variables of an include given as an expression, with blocks, arrow
+// functions, block set. Whatever is accepted leaves the caller's lists and hashes as they were.
+func c18OtherDialects(res *Result) {
+	mk := func() map[string]interface{} {
+		users := []interface{}{
+			map[string]interface{}{"name": "ann", "active": false, "tags": []interface{}{"x"}},
+			map[string]interface{}{"name": "bob", "active": true, "tags": []interface{}{"y", "z"}},
+			map[string]interface{}{"name": "cid", "active": false, "tags": []interface{}{}},
+			map[string]interface{}{"name": "dan", "active": true, "tags": []interface{}{"w"}},
+		}
+		card := map[string]interface{}{"title": "T", "body": "B"}
+		return map[string]interface{}{"users": users, "card": card, "site": "S", "title": "outer", "xs": []interface{}{3, 1, 2},
+			"doc": map[string]interface{}{"card": card, "list": users}, "typed": map[string]string{"title": "tt"}, "n": 1}
+	}
+	tpls := []string{
+		"{% for u in users if u.active %}{{ loop.index }}/{{ loop.length }}:{{ u.name }},{% endfor %}",
+		"{% for u in users if not u.active %}{{ u.name }}{% else %}none{% endfor %}", "{% for u in doc.list if u.active %}{{ u.name }}{% endfor %}",
+		"{% for k, v in card if v %}{{ k }}{% endfor %}", "{% for x in xs if x > 1 %}{{ x }}{% endfor %}", "{% for u in users if u.tags|length %}{{ u.name }}{% endfor %}",
+		"{% include 'p' with card %}", "{% include 'p' with card only %}", "{% include 'p' with card sandboxed %}", "{% include 'p' with doc.card sandboxed %}",
+		"{% include 'p' with card|default({}) sandboxed %}", "{% include 'p' with typed sandboxed %}", "{% include 'p' with users|first sandboxed %}",
+		"{% include 'p' with card ignore missing sandboxed %}", "{% for i in [1, 2] %}{% include 'p' with card sandboxed %}{% endfor %}",
+		"{% with card %}{{ title }}{% set title = 'W' %}{% endwith %}{{ title }}", "{% with {'title': 'w'} %}{{ title }}{% endwith %}", "{% with card only %}{{ title }}{{ site }}{% endwith %}",
+		"{% set a, b = 1, 2 %}{{ a }}{{ b }}", "{% set z %}<{{ title }}>{% endset %}{{ z }}", "{{ users|filter(u => u.active)|length }}", "{{ xs|map(x => x * 2)|join(',') }}",
+		"{{ xs|sort((a, b) => a <=> b)|join }}", "{{ users|column('name')|join }}", "{{ xs|batch(2)|length }}", "{{ xs|shuffle|length }}", "{{ users|reduce((c, u) => c + 1, 0) }}",
+		"{% set xs2 = xs %}{% set xs2 = xs2|sort %}{{ xs2|join }}{{ xs|join }}", "{% do xs|sort %}{{ xs|join }}", "{{ users|sort((a, b) => a.name <=> b.name)|first.name }}",
+		"{% embed 'p' %}{% endembed %}", "{% autoescape %}{{ title }}{% endautoescape %}", "{{ card|merge(doc.card)|keys|join }}{{ users|merge(xs)|length }}",
+		"{{ users|slice(1, 2)|first.name }}{{ users|reverse|first.name }}{{ users|last.name }}", "{{ users[1:2]|length }}{{ xs[:2]|join }}",
+	}
+	c18Family(res, "other-dialects", mk, map[string]string{"p": "[{{ title }}|{{ body }}|{{ site }}]{% set title = 'changed' %}"}, tpls)
+}
+
+// c18Brief: a value in few words, to a fixed depth (what a render left behind may contain itself)
+func c18Brief(v interface{}, depth int) string {
+	if v == nil {
+		return "nil"
+	}
+	rv := reflect.ValueOf(v)
+	switch rv.Kind() {
+	case reflect.Map:
+		if depth == 0 {
+			return fmt.Sprintf("%T(%d entries)", v, rv.Len())
+		}
+		var parts []string
+		for _, k := range rv.MapKeys() {
+			parts = append(parts, fmt.Sprintf("%v:%s", k.Interface(), c18Brief(rv.MapIndex(k).Interface(), depth-1)))
+		}
+		sort.Strings(parts)
+		if len(parts) > 12 {
+			parts = append(parts[:12], "...")
+		}
+		return fmt.Sprintf("%T{%s}", v, strings.Join(parts, " "))
+	case reflect.Slice, reflect.Array:
+		if depth == 0 || rv.Len() > 12 {
+			return fmt.Sprintf("%T(%d elements)", v, rv.Len())
+		}
+		var parts []string
+		for i := 0; i < rv.Len(); i++ {
+			parts = append(parts, c18Brief(rv.Index(i).Interface(), depth-1))
+		}
+		return "[" + strings.Join(parts, " ") + "]"
+	case reflect.Ptr:
+		if rv.IsNil() || depth == 0 {
+			return fmt.Sprintf("%T", v)
+		}
+		return "&" + c18Brief(rv.Elem().Interface(), depth-1)
+	case reflect.Struct:
+		if depth == 0 {
+			return fmt.Sprintf("%T", v)
+		}
+	}
+	s := fmt.Sprintf("%v", v)
+	if len(s) > 80 {
+		s = s[:80] + "..."
+	}
+	return s
 }
